@@ -180,6 +180,31 @@ theorem c07_rebuild (s t : DD β) (hs : WF s) (hbs : t.bs = s.bs) (htop : t.top 
   · rw [b, tp]; exact sw
   · rw [b, hnb]; exact hu
 
+/-! ### a replica that rejoins with its old directory
+
+Only the snapshots above the rejoining replica's checkpoint are transferred
+(`sync.isRevisionCountAndChainSame`); the checkpoint and everything below it stay the replica's own
+files.  That is sound exactly as far as the checkpoint's image is the same on both replicas (what the
+controller established when it recorded the checkpoint, C13): -/
+
+/-- if the two chains show the same image at the checkpoint `k` and have the same files above it, they
+    show the same image at every member from `k` upwards — whatever the files at and below `k` look
+    like on either side (the source may have merged snapshots there since) -/
+theorem c07_rejoin_above_checkpoint (sf tf : Nat → File β) (bs k : Nat)
+    (hk : ∀ u, viewUpTo tf bs k u = viewUpTo sf bs k u) (habove : ∀ j, k < j → tf j = sf j) :
+    ∀ i, k ≤ i → ∀ u, viewUpTo tf bs i u = viewUpTo sf bs i u := by
+  intro i hi
+  induction i with
+  | zero =>
+    have : k = 0 := by omega
+    subst this; exact hk
+  | succ i ih =>
+    intro u
+    by_cases e : k = i + 1
+    · subst e; exact hk u
+    · have hlt : k ≤ i := by omega
+      rw [viewUpTo_succ, viewUpTo_succ, habove (i + 1) (by omega), ih hlt u]
+
 /-! ### non-vacuity, and the defect the widening repairs -/
 
 private def srcDemo : DD Nat := ((DD.init 8 2).write 0 8 (fun u => 7 + u)).snapshot false
